@@ -1,5 +1,7 @@
 import Model.Genum
 import Lemmas.Genum
+import Lemmas.GenumTraits
+import Properties.C04
 import Properties.C05
 /-!
 # C12 — genum: trait accessors and parse-by-trait agree with the declaration
@@ -10,7 +12,7 @@ About `genFull` and the accessor / `Parse` switch / decoder models of `Model/Gen
 namespace Genum.C12
 open Genum
 
-variable {f : FileDef} {t : TypeDecl}
+variable {f : FileDef} {t : TypeDecl} {k : IntKind}
 
 /-! ## accessors -/
 
@@ -67,14 +69,71 @@ theorem accessor_returns_row (o : Options) (g : GenFull) (h : genFull o f t = .o
     td.get r.owner.val = r.dyn :=
   accessor_of_row td (rows_unique o g h td htd) r hr
 
-/- FULL STATEMENT (accessor_returns_declared):
-     genFull o f t = .ok g → Accepted f t.name k → DeclaredTrait f t j e d →
-       ∃ td ∈ g.traits, td.name = (t.cols[j]).name ∧ td.get e = d
-   Proved: `accessor_returns_row` + `accessor_zero` (the switch returns exactly its rows, zero
-   elsewhere) for all definitions. Missing: that the rows `genTraits` keeps are exactly the trait
-   constants of the PRIMARY definition lines (`rowsOf` ∘ `keepRow` against `IsPrimary`), which needs
-   `getPrimaryLoop` = `dedupLoop`'s choice on a sorted group. The correspondence run compares the
-   accessors with the declaration on every generated definition (exhaustively on 8-bit kinds). -/
+/-- the line of the lowest value is the head of the sorted value list, so it has every column -/
+private theorem first_has_all_columns (ha : Accepted f t.name k) (hfl : FirstLineDeclares f t)
+    (first : Value) (rest : List Value) (hvs : sortedValues f t.name = first :: rest) :
+    first.tvals.length = t.cols.length := by
+  have ⟨hsorted, _⟩ := sortedValues_facts ha
+  rw [hvs] at hsorted
+  have hfm : first ∈ sortedValues f t.name := by rw [hvs]; simp
+  obtain ⟨c0, hc0, ht0, rfl⟩ := mem_sortedValues.mp hfm
+  have := hfl c0 hc0 ht0 (by
+    intro c' hc' ht'
+    have hm : Value.ofConst c' ∈ Value.ofConst c0 :: rest := by
+      rw [← hvs]; exact mem_sortedValues.mpr ⟨c', hc', ht', rfl⟩
+    rcases List.mem_cons.mp hm with e | hm
+    · right
+      have e1 : c'.val = c0.val := congrArg Value.val e
+      have e2 : c'.name = c0.name := congrArg Value.name e
+      exact ⟨e1.symm, by rw [e2]; exact String.le_refl _⟩
+    · have hr := (List.pairwise_cons.mp hsorted).1 _ hm
+      unfold R at hr
+      rcases hr with h | ⟨h1, h2⟩
+      · exact Or.inl h
+      · exact Or.inr ⟨h1, String.le_of_lt' h2⟩)
+  exact this
+
+/-- `accessor_returns_declared`: for every definition `genFull` accepts whose lowest value's line
+declares the trait columns, the accessor of column `j` returns, on every defined value, the
+constant written in column `j` of that value's PRIMARY definition line (first non-deprecated name
+alphabetically, first name if all are deprecated) — whatever aliases, deprecated or live, with or
+without trait columns of their own, share the value. (`accessor_zero`: the zero value elsewhere.) -/
+theorem accessor_returns_declared (o : Options) (g : GenFull) (h : genFull o f t = .ok g)
+    (ha : Accepted f t.name k) (hfl : FirstLineDeclares f t)
+    (j : Nat) (e : Int) (d : Dyn) (hd : DeclaredTrait f t j e d) :
+    ∃ td ∈ g.traits, (∃ col, t.cols[j]? = some col ∧ td.name = col.name) ∧ td.get e = d := by
+  obtain ⟨c, hc, hty, hval, hprim, col, hcol, s, hs, rfl⟩ := hd
+  obtain ⟨ts, hts, hg, _⟩ := genFull_ok h
+  have ⟨hsorted, hfaith⟩ := sortedValues_facts ha
+  have hcv : Value.ofConst c ∈ sortedValues f t.name := mem_sortedValues.mpr ⟨c, hc, hty, rfl⟩
+  match hvs : sortedValues f t.name with
+  | [] => rw [hvs] at hcv; cases hcv
+  | first :: rest =>
+    rw [hvs] at hts
+    have hperm := genTraits_ok hts
+    have hfirst := first_has_all_columns ha hfl first rest hvs
+    have htake : t.cols.take first.tvals.length = t.cols := by
+      rw [hfirst]; exact List.take_of_length_le (Nat.le_refl _)
+    rw [htake] at hperm
+    have htd : mkTrait o (first :: rest) (j, col) ∈ ts :=
+      hperm.mem_iff.mpr (List.mem_map.mpr ⟨(j, col), mem_zip_range _ _ _ hcol, rfl⟩)
+    have htdg : mkTrait o (first :: rest) (j, col) ∈ g.traits := by subst hg; exact htd
+    refine ⟨_, htdg, ⟨col, hcol, rfl⟩, ?_⟩
+    have hr1 : (⟨Value.ofConst c, ⟨col.ty, s⟩⟩ : TraitRow) ∈ rowsOf (first :: rest) j col.ty := by
+      unfold rowsOf
+      rw [List.mem_filterMap]
+      exact ⟨Value.ofConst c, hvs ▸ hcv, by simp [Value.ofConst, hs]⟩
+    have hkeep : keepRow {} (first :: rest) ⟨Value.ofConst c, ⟨col.ty, s⟩⟩ = true := by
+      apply keepRow_of_primary_name _ (hvs ▸ hsorted) (hvs ▸ hfaith) _ (hvs ▸ hcv)
+      intro p hpin hpv
+      have hp := primary_of_primaryIn (f := f) (t := t.name) (hvs ▸ hpin)
+      have hpe : p.val = e := by rw [hpv]; exact hval
+      rw [hpe] at hp
+      exact C04.primary_unique hp hprim
+    have hr : (⟨Value.ofConst c, ⟨col.ty, s⟩⟩ : TraitRow) ∈ (mkTrait o (first :: rest) (j, col)).rows :=
+      List.mem_filter.mpr ⟨hr1, hkeep⟩
+    have := accessor_returns_row o g h _ htdg _ hr
+    simpa [Value.ofConst, hval] using this
 
 /-! ## Parse by trait -/
 
@@ -89,25 +148,249 @@ theorem parse_by_trait (o : Options) (g : GenFull) (h : genFull o f t = .ok g)
   have hn : (g.base.cases.flatMap (·.consts)).Nodup := by simpa using hdup.1.1
   exact C05.parse_of_case g.base hn c hc d hd
 
-/-- decoding a scalar that holds an UNTYPED-string trait constant (or a name): all three decoders
-return what `Parse<T>` returns for the string. -/
-theorem decode_by_trait_string_partial (g : GenFull) (s : String) (v : Int)
-    (h : g.base.parse (Dyn.ofString s) = some v) :
-    g.unmarshalJSON {} (.str s) = some v ∧ g.unmarshalText s = some v ∧ g.unmarshalYAML {} s = some v := by
-  have hs : stringTry g s = some v := by unfold stringTry; rw [h]
-  refine ⟨hs, hs, ?_⟩
-  unfold GenFull.unmarshalYAML; rw [hs]
+/-- `parse_by_trait` on the declaration side: for every parsable trait of an accepted generation
+and every row it keeps, `Parse<T>` of the row's typed constant returns the row's value. -/
+theorem parse_row (o : Options) (g : GenFull) (h : genFull o f t = .ok g) (ha : Accepted f t.name k)
+    (td : TraitDesc) (htd : td ∈ g.traits) (hp : td.parsable = true) (r : TraitRow) (hr : r ∈ td.rows) :
+    g.base.parse r.dyn = some r.owner.val := by
+  obtain ⟨hown, _, huniq⟩ := row_facts h ha td htd r hr
+  have hn := C05.cases_nodup h
+  obtain ⟨ts, _, hg, _⟩ := genFull_ok h
+  have hcase : caseOf ts r.owner ∈ g.base.cases := by
+    subst hg; exact List.mem_map.mpr ⟨_, hown, rfl⟩
+  have htd' : td ∈ ts := by subst hg; exact htd
+  have hone : caseOne r.owner td = [r.dyn] := by
+    unfold caseOne TraitDesc.instanceOf
+    cases hf : td.rows.find? (fun x => x.owner.name == r.owner.name) with
+    | none =>
+      rw [List.find?_eq_none] at hf
+      exact absurd (by simp) (hf r hr)
+    | some r' =>
+      have := huniq r' (List.mem_of_find?_eq_some hf) (by simpa using List.find?_some hf)
+      rw [this]
+  have hmem : r.dyn ∈ (caseOf ts r.owner).consts := by
+    unfold caseOf caseConsts
+    apply List.mem_cons_of_mem
+    rw [List.mem_flatten]
+    exact ⟨[r.dyn], List.mem_map.mpr ⟨td, List.mem_filter.mpr ⟨htd', by simpa using hp⟩, hone⟩, by simp⟩
+  exact C05.parse_of_case g.base hn _ hcase r.dyn hmem
 
-/- FULL STATEMENT (decode_by_trait_json / _yaml / _text): for every parsable trait of a family
-   the template has a branch for (named string, signed/unsigned integer of any width) and every
-   row constant `c` of value `e`, whose number/string is no other switch constant:
-     g.unmarshalJSON {} (doc c) = some e ∧ g.unmarshalYAML {} (text c) = some e (∧ text for strings)
-   Proved: the untyped-string family (`decode_by_trait_string_partial`, with `parse_by_trait`).
-   Missing: the `firstSome` search over the family lists (a positive lemma "the first candidate
-   that parses wins and the earlier ones fail" under the pairwise-distinct hypothesis) and
-   `wrapTo … x = x` for in-range constants. Families WITHOUT a template branch (bool, untyped rune)
-   make the full statement false on the code: known findings C12:decode:bool-trait /
-   C12:decode:rune-trait. The correspondence run checks every family against the property. -/
+/-- "pairwise distinct values" for the constant of row `r`, on the generated switch: no other
+`case` constant has the same scalar content, and (for strings, under `-caseInsensitive`) the
+string is not a constant name up to case -/
+structure Distinct (g : GenFull) (r : TraitRow) : Prop where
+  consts : ∀ c ∈ g.base.cases, ∀ d ∈ c.consts, d.v = r.dyn.v → d = r.dyn
+  fold : ∀ lc s, g.base.lowerCases = some lc → r.dyn.v = .str s → ∀ p ∈ lc, p.1 ≠ asciiLower s
+
+/-- under `Distinct`, whatever type the decoder reads the document's content at, `Parse<T>`
+either fails or returns the owner of the row -/
+private theorem parse_content (g : GenFull) (r : TraitRow) (hd : Distinct g r)
+    (hrow : g.base.parse r.dyn = some r.owner.val) (ty : String) :
+    g.base.parse ⟨ty, r.dyn.v⟩ = none ∨ g.base.parse ⟨ty, r.dyn.v⟩ = some r.owner.val := by
+  cases hp : g.base.parse ⟨ty, r.dyn.v⟩ with
+  | none => exact Or.inl rfl
+  | some w =>
+    right
+    rcases parse_some g.base _ w hp with ⟨c, hc, hdc, _⟩ | ⟨lc, s, hl, hds, p, hpl, hpe, _⟩
+    · have := hd.consts c hc _ hdc rfl
+      rw [this] at hp
+      rw [← hp, hrow]
+    · have hv : r.dyn.v = .str s := by
+        have := congrArg Dyn.v hds
+        simpa [Dyn.ofString] using this
+      exact absurd hpe (hd.fold lc s hl hv p hpl)
+
+/-- `decode_by_trait`, string kinds (untyped `string` constants and named string types): a JSON
+string, a YAML scalar and a text holding the constant of a row of a parsable trait decode to the
+row's value in all three decoders. -/
+theorem decode_by_trait_string (o : Options) (g : GenFull) (h : genFull o f t = .ok g) (ha : Accepted f t.name k)
+    (td : TraitDesc) (htd : td ∈ g.traits) (hp : td.parsable = true)
+    (hfam : td.fam = .nstr ∨ td.ty = "string")
+    (r : TraitRow) (hr : r ∈ td.rows) (s : String) (hs : r.dyn.v = .str s) (hd : Distinct g r) :
+    g.unmarshalJSON {} (.str s) = some r.owner.val ∧ g.unmarshalText s = some r.owner.val ∧
+    g.unmarshalYAML {} s = some r.owner.val := by
+  have hrow := parse_row o g h ha td htd hp r hr
+  have hty := (row_facts h ha td htd r hr).2.1
+  have hcontent := parse_content g r hd hrow
+  rw [hs] at hcontent
+  have hdyn : r.dyn = ⟨td.ty, .str s⟩ := by
+    cases hrd : r.dyn with
+    | mk ty v => rw [hrd] at hty hs; simp at hty hs; rw [hty, hs]
+  have hst : stringTry g s = some r.owner.val := by
+    unfold stringTry
+    cases h1 : g.base.parse (Dyn.ofString s) with
+    | some w =>
+      rcases hcontent "string" with h2 | h2
+      · rw [show Dyn.ofString s = ⟨"string", .str s⟩ from rfl, h2] at h1; cases h1
+      · rw [show Dyn.ofString s = ⟨"string", .str s⟩ from rfl, h2] at h1; rw [← h1]
+    | none =>
+      simp only []
+      rcases hfam with hf | hf
+      · apply firstSome_eq
+        · intro x hx
+          obtain ⟨t', _, rfl⟩ := List.mem_map.mp hx
+          exact hcontent t'.ty
+        · refine List.mem_map.mpr ⟨td, List.mem_filter.mpr ⟨htd, by simp [hp, hf]⟩, ?_⟩
+          rw [← hdyn, hrow]
+      · rw [hdyn, hf] at hrow
+        rw [show Dyn.ofString s = ⟨"string", .str s⟩ from rfl, hrow] at h1
+        cases h1
+  refine ⟨hst, hst, ?_⟩
+  unfold GenFull.unmarshalYAML; rw [hst]
+
+/-- every candidate of a numeric fallback fails or returns the owner, and the trait's own
+candidate returns the owner -/
+private theorem numericTry_row (g : GenFull) (td : TraitDesc) (htd : td ∈ g.traits) (hp : td.parsable = true)
+    (r : TraitRow) (i : Int) (hdyn : r.dyn = ⟨td.ty, .int i⟩)
+    (hcontent : ∀ ty, g.base.parse ⟨ty, .int i⟩ = none ∨ g.base.parse ⟨ty, .int i⟩ = some r.owner.val)
+    (hrow : g.base.parse r.dyn = some r.owner.val)
+    (signed : Bool) (bits : Nat)
+    (hfam : td.fam = if signed then .sint bits else .uint bits) (hw : wrapTo signed bits i = i) :
+    numericTry {} g signed i = some r.owner.val := by
+  unfold numericTry
+  apply firstSome_eq
+  · intro x hx
+    obtain ⟨t', _, rfl⟩ := List.mem_map.mp hx
+    simp only []
+    generalize wrapTo signed _ i = w
+    by_cases hc : w = i
+    · subst hc; simpa using hcontent t'.ty
+    · left
+      have : (({} : Quirks).noRangeGuard || w == i) = false := by simp [hc]
+      rw [this]; rfl
+  · have hbits : td.fam.bitsOf = bits := by cases signed <;> simp [hfam, Family.bitsOf]
+    refine List.mem_map.mpr ⟨td, List.mem_filter.mpr ⟨htd, ?_⟩, ?_⟩
+    · cases signed <;> simp [hp, hfam, Family.isNumeric]
+    · simp only [hbits, hw]
+      rw [← hdyn, hrow]; simp
+
+/-- every candidate of a numeric fallback fails or returns the owner -/
+private theorem numericTry_cases (g : GenFull) (r : TraitRow) (i : Int)
+    (hcontent : ∀ ty, g.base.parse ⟨ty, .int i⟩ = none ∨ g.base.parse ⟨ty, .int i⟩ = some r.owner.val) :
+    ∀ sg, numericTry {} g sg i = none ∨ numericTry {} g sg i = some r.owner.val := by
+  intro sg
+  cases hq : numericTry {} g sg i with
+  | none => exact Or.inl rfl
+  | some w =>
+    right
+    unfold numericTry at hq
+    have : ∀ (l : List (Option Int)), (∀ x ∈ l, x = none ∨ x = some r.owner.val) → firstSome l = some w → w = r.owner.val := by
+      intro l hl hf
+      induction l with
+      | nil => cases hf
+      | cons x xs ih =>
+        rcases hl x (by simp) with hx | hx
+        · subst hx; exact ih (fun y hy => hl y (List.mem_cons_of_mem _ hy)) hf
+        · subst hx; injection hf with hf; exact hf.symm
+    rw [this _ ?_ hq]
+    intro x hx
+    obtain ⟨t', _, rfl⟩ := List.mem_map.mp hx
+    simp only []
+    generalize wrapTo sg _ i = w'
+    by_cases hc : w' = i
+    · subst hc; simpa using hcontent t'.ty
+    · left
+      have : (({} : Quirks).noRangeGuard || w' == i) = false := by simp [hc]
+      rw [this]; rfl
+
+/-- `decode_by_trait`, integer kinds (untyped int, named and built-in signed / unsigned integer
+types of 1-64 bits, `time.Duration`): a JSON integer holding the constant of a row of a parsable
+trait decodes to the row's value. -/
+theorem decode_by_trait_json_int (o : Options) (g : GenFull) (h : genFull o f t = .ok g) (ha : Accepted f t.name k)
+    (td : TraitDesc) (htd : td ∈ g.traits) (hp : td.parsable = true)
+    (signed : Bool) (bits : Nat) (hb : 1 ≤ bits ∧ bits ≤ 64)
+    (hfam : td.fam = if signed then .sint bits else .uint bits)
+    (r : TraitRow) (hr : r ∈ td.rows) (i : Int) (hi : r.dyn.v = .int i)
+    (hrange : if signed then -((2 : Int) ^ (bits - 1)) ≤ i ∧ i < (2 : Int) ^ (bits - 1) else 0 ≤ i ∧ i < (2 : Int) ^ bits)
+    (hd : Distinct g r) :
+    g.unmarshalJSON {} (.num i) = some r.owner.val := by
+  have hrow := parse_row o g h ha td htd hp r hr
+  have hty := (row_facts h ha td htd r hr).2.1
+  have hcontent := parse_content g r hd hrow
+  rw [hi] at hcontent
+  have hdyn : r.dyn = ⟨td.ty, .int i⟩ := by
+    cases hrd : r.dyn with
+    | mk ty v => rw [hrd] at hty hi; simp at hty hi; rw [hty, hi]
+  have hw := wrapTo_id signed bits hb.1 i hrange
+  have hmine := numericTry_row g td htd hp r i hdyn hcontent hrow signed bits hfam hw
+  have hother := numericTry_cases g r i hcontent
+  have p63 := pow_le_two63 (n := bits - 1) (by omega)
+  have p64 := pow_le_two64 (n := bits) hb.2
+  unfold GenFull.unmarshalJSON
+  simp only []
+  cases signed
+  · -- unsigned family: the uint64 branch applies and finds it
+    simp only [Bool.false_eq_true, if_false] at hrange hmine
+    have hcond : 0 ≤ i ∧ i < (two64 : Int) := ⟨hrange.1, by unfold two64; omega⟩
+    rw [if_pos hcond, hmine]
+  · simp only [if_true] at hrange hmine
+    have hcond : -(two63 : Int) ≤ i ∧ i < (two63 : Int) := by unfold two63; omega
+    split
+    · rename_i v hv
+      split at hv
+      · rcases hother false with h0 | h0
+        · rw [h0] at hv; cases hv
+        · rw [h0] at hv; exact hv.symm ▸ rfl
+      · cases hv
+    · rw [if_pos hcond, hmine]
+
+/-- `decode_by_trait`, integer kinds, YAML: a scalar whose text is a decimal numeral denoting the
+constant of a row of a parsable integer trait (`strconv.ParseInt` reads it as `i`, `ParseUint`
+too when `i ≥ 0`), and which is not itself a string constant of the switch, decodes to the row's
+value. -/
+theorem decode_by_trait_yaml_int (o : Options) (g : GenFull) (h : genFull o f t = .ok g) (ha : Accepted f t.name k)
+    (td : TraitDesc) (htd : td ∈ g.traits) (hp : td.parsable = true)
+    (signed : Bool) (bits : Nat) (hb : 1 ≤ bits ∧ bits ≤ 64)
+    (hfam : td.fam = if signed then .sint bits else .uint bits)
+    (r : TraitRow) (hr : r ∈ td.rows) (i : Int) (hi : r.dyn.v = .int i)
+    (hrange : if signed then -((2 : Int) ^ (bits - 1)) ≤ i ∧ i < (2 : Int) ^ (bits - 1) else 0 ≤ i ∧ i < (2 : Int) ^ bits)
+    (hd : Distinct g r)
+    (text : String) (hpi : parseIntLit text = some i)
+    (hpu : parseUintLit text = if 0 ≤ i then some i else none)
+    (hnostr : ∀ ty, g.base.parse ⟨ty, .str text⟩ = none) :
+    g.unmarshalYAML {} text = some r.owner.val := by
+  have hrow := parse_row o g h ha td htd hp r hr
+  have hty := (row_facts h ha td htd r hr).2.1
+  have hcontent := parse_content g r hd hrow
+  rw [hi] at hcontent
+  have hdyn : r.dyn = ⟨td.ty, .int i⟩ := by
+    cases hrd : r.dyn with
+    | mk ty v => rw [hrd] at hty hi; simp at hty hi; rw [hty, hi]
+  have hw := wrapTo_id signed bits hb.1 i hrange
+  have hmine := numericTry_row g td htd hp r i hdyn hcontent hrow signed bits hfam hw
+  have hother := numericTry_cases g r i hcontent
+  unfold GenFull.unmarshalYAML
+  rw [stringTry_none g text hnostr]
+  simp only [hpi]
+  cases signed
+  · -- unsigned family: ParseUint reads the numeral and the uint64 branch finds it
+    simp only [Bool.false_eq_true, if_false] at hrange hmine hfam
+    have hU : (g.numericTraits false).isEmpty = false := by
+      have : td ∈ g.numericTraits false := List.mem_filter.mpr ⟨htd, by simp [hp, hfam, Family.isNumeric]⟩
+      cases hl : g.numericTraits false with
+      | nil => rw [hl] at this; cases this
+      | cons _ _ => rfl
+    rw [hpu, if_pos hrange.1, hU]
+    simp [hmine]
+  · simp only [if_true] at hrange hmine hfam
+    have hS : (g.numericTraits true).isEmpty = false := by
+      have : td ∈ g.numericTraits true := List.mem_filter.mpr ⟨htd, by simp [hp, hfam, Family.isNumeric]⟩
+      cases hl : g.numericTraits true with
+      | nil => rw [hl] at this; cases this
+      | cons _ _ => rfl
+    rw [hpu, hS]
+    by_cases h0 : 0 ≤ i
+    · rw [if_pos h0]
+      rcases hother false with hu | hu
+      · simp [hu, hmine]
+      · have hne : g.numericTraits false ≠ [] := by
+          intro he
+          unfold numericTry at hu
+          rw [he] at hu
+          cases hu
+        simp [hu, hne]
+    · rw [if_neg h0]
+      simp [hmine]
 
 /-! ## the pinned algorithms -/
 
@@ -145,7 +428,55 @@ theorem legacy_duplicates_violate :
       (g.base.parse ⟨"int", .int 20⟩, g.base.parse (Dyn.ofString "B1Old"), g.unmarshalYAML {} "10"))
       = some (some 2, some 1, some 1) := by decide
 
+/-- an untyped rune trait 'a','b' declared parsable; its family comes from `extractUnderlying` -/
+def runeWitness (legacy : Bool) : TypeDecl :=
+  { name := "E", kind := ⟨64, true⟩, cols := [⟨"Rn", "rune", extractUnderlyingQ legacy .untypedRune⟩] }
+
+def runeDef (legacy : Bool) : FileDef :=
+  ⟨[runeWitness legacy],
+   [{ name := "R0", ty := "E", val := 0, deprecated := false, tvals := [.int 97] },
+    { name := "R1", ty := "E", val := 1, deprecated := false, tvals := [.int 98] }]⟩
+
+/-- the pinned `extractUnderlying` does not list `types.UntypedRune`: the trait has no decoder
+family, `Parse<T>('b')` works but JSON / YAML `98` is rejected. With the kind in the int64 family
+(current tree) both decode to the owner of 'b', and 99 / 4294967394 (= 98 + 2^32) stay rejected. -/
+theorem legacy_rune_family_violates :
+    extractUnderlying .untypedRune = .sint 32 ∧ extractUnderlyingQ true .untypedRune = .none ∧
+    (genFull { parsable := ["Rn"] } (runeDef true) (runeWitness true)).toOption.map (fun g =>
+      (g.base.parse ⟨"rune", .int 98⟩, g.unmarshalJSON {} (.num 98), g.unmarshalYAML {} "98"))
+      = some (some 1, none, none) ∧
+    (genFull { parsable := ["Rn"] } (runeDef false) (runeWitness false)).toOption.map (fun g =>
+      (g.base.parse ⟨"rune", .int 98⟩, g.unmarshalJSON {} (.num 98), g.unmarshalYAML {} "98",
+       g.unmarshalJSON {} (.num 99), g.unmarshalJSON {} (.num 4294967394)))
+      = some (some 1, some 1, some 1, none, none) := by decide
+
+/- `decode_by_trait` is proved for every family the template has a branch for:
+   `decode_by_trait_string` (untyped and named strings; JSON, text, YAML), `decode_by_trait_json_int`
+   and `decode_by_trait_yaml_int` (signed / unsigned integers of 1-64 bits, untyped rune included
+   since fix-C12-rune-trait), each under `Distinct` (the quantifier's "pairwise distinct values",
+   stated on the generated switch). The bool family has no template branch and falsifies the
+   statement on the code: known finding C12:decode:bool-trait. Not modelled: float and
+   self-unmarshalling trait types. -/
+
 /-! ## non-vacuity -/
+
+/-- the hypotheses of `accessor_returns_declared` and of the `decode_by_trait` theorems are
+satisfiable: the witness definition is accepted, its first line declares the column, value 1 has
+the declared constant 10 on its primary line, and every row constant of the generated switch is
+`Distinct` (no lower-case switch without `-caseInsensitive`) -/
+example : Accepted C05.witness "E" ⟨64, true⟩ ∧ FirstLineDeclares C05.witness C05.witnessType ∧
+    DeclaredTrait C05.witness C05.witnessType 0 1 ⟨"int", .int 10⟩ ∧
+    (genFull { parsable := ["Num"] } C05.witness C05.witnessType).toOption.map (fun g =>
+      (g.traits.all (fun td => td.parsable && td.rows.all (fun r =>
+          decide (∀ c ∈ g.base.cases, ∀ d ∈ c.consts, d.v = r.dyn.v → d = r.dyn))),
+       g.base.lowerCases.isNone, g.unmarshalJSON {} (.num 10), g.unmarshalYAML {} "10"))
+      = some (true, true, some 1, some 1) := by
+  refine ⟨⟨by decide, by decide, by decide⟩, by decide, ?_, by decide⟩
+  refine ⟨{ name := "A1", ty := "E", val := 1, deprecated := false, tvals := [.int 10] }, by decide, rfl, rfl, ?_,
+    ⟨"Num", "int", .sint 64⟩, rfl, .int 10, rfl, rfl⟩
+  exact ⟨{ name := "A1", ty := "E", val := 1, deprecated := false, tvals := [.int 10] }, by decide, rfl, rfl, rfl,
+    Or.inl ⟨rfl, by decide⟩⟩
+
 
 example : (genFull { parsable := ["Num"] } C05.witness C05.witnessType).toOption.map (fun g =>
     (g.traits.map (fun td => (td.name, td.get 1, td.get 5)), g.base.parse ⟨"int", .int 10⟩, g.base.parse ⟨"int64", .int 10⟩))
